@@ -8,6 +8,7 @@ import (
 	"github.com/elnosh/gonuts/cashu"
 	"github.com/elnosh/gonuts/cashu/nuts/nut07"
 
+	"verif/harness/dbwrap"
 	"verif/harness/world"
 )
 
@@ -280,5 +281,95 @@ func (w *W) ProbeInfo() {
 	json.Unmarshal(r.Nuts["4"], &n4)
 	if n4.Disabled != exp {
 		w.viol("C16", fmt.Sprintf("info-handler-disabled/expected=%v", exp), "GET /v1/info: nuts.4.disabled=%v with balance %d, max balance %d", n4.Disabled, bal, w.Cfg.Limits.MaxBalance)
+	}
+}
+
+var errInjectedRead = fmt.Errorf("verif: injected storage read failure")
+
+// QueryUnderReadFaults repeats a query (whose fault-free answer QueryStates / QueryRestore have judged) once per storage
+// read call k of the request, with an error injected at exactly that call: the mint may fail the request, but an
+// answer it does give must still be the truth — identical to the fault-free one, never one that silently drops or
+// changes an entry (C15: "exactly those the mint has signed", "each one's true state"). Only read calls are faulted
+// (faults at writes are C07's subject) and in-flight melts whose outcome the backend already knows are left out, so
+// the probe itself never changes the store.
+func (w *W) QueryUnderReadFaults(restore bool, items []string) {
+	var msgs cashu.BlindedMessages
+	if restore {
+		for _, b := range items {
+			j, ok := w.outIdx[b]
+			if !ok {
+				msgs = append(msgs, cashu.BlindedMessage{B_: b, Id: w.Keysets[0].Id})
+				continue
+			}
+			msgs = append(msgs, w.Outs[j].O.Msg)
+		}
+	} else {
+		for _, y := range items {
+			if _, p := w.proofByY(y); p != nil && p.St == Pending && p.Melt >= 0 {
+				if lp := w.LN.Payments[w.Melts[p.Melt].Hash]; lp == nil || lp.Status.String() != "Pending" {
+					return
+				}
+			}
+		}
+	}
+	run := func() (ans string, err error) {
+		defer func() {
+			if r := recover(); r != nil {
+				err = fmt.Errorf("panic: %v", r)
+			}
+		}()
+		if restore {
+			outs, sigs, e := w.M.M.RestoreSignatures(msgs)
+			if e != nil {
+				return "", e
+			}
+			b, _ := json.Marshal([]any{outs, sigs})
+			return string(b), nil
+		}
+		st, e := w.M.M.ProofsStateCheck(items)
+		if e != nil {
+			return "", e
+		}
+		b, _ := json.Marshal(st)
+		return string(b), nil
+	}
+	me := dbwrap.GID()
+	var names []string
+	k := -1
+	n := 0
+	prev := w.M.DB.Before
+	w.M.DB.Before = func(c *dbwrap.Call) error {
+		if dbwrap.GID() != me {
+			return nil
+		}
+		i := n
+		n++
+		if k < 0 {
+			names = append(names, c.Name)
+		}
+		if i == k {
+			return errInjectedRead
+		}
+		return nil
+	}
+	defer func() { w.M.DB.Before = prev }()
+	base, err := run()
+	if err != nil {
+		return
+	}
+	what := "state-check"
+	if restore {
+		what = "restore"
+	}
+	for kk, name := range names {
+		if !strings.HasPrefix(name, "Get") {
+			continue
+		}
+		k, n = kk, 0
+		got, err := run()
+		w.Outcomes[what+"-under-read-fault"]++
+		if err == nil && got != base {
+			w.viol("C15", what+"-under-read-fault/"+name, "%s of %d entries with a storage error injected at its read call %d (%s) answered without error, but not the truth: %.300s  instead of  %.300s", what, len(items), kk, name, got, base)
+		}
 	}
 }
